@@ -22,7 +22,7 @@ BOUNDS = {
               "halo": "2x2 faces linked on both axes (periodic and open), fill/extend/periodic, 2-D width sets with widths <= 1, all data symbolic, corner cells included",
               "signatures": "10 pairs of 2- and 3-axis signatures (renamings, merged/split names, swapped positions)",
               "parsed metadata": "COMODO 2-3 axes, SGRID 2-D, 2-D+vertical, 3-D", "metrics": "8 registries over 3 axes offering several partitions"},
-    "thorough": {"halo": "widths <= 2", "parsed metadata": "+ 4 axes (COMODO)", "metrics": "+ all 35 registries of 2-3 pair/single metrics"},
+    "thorough": {"halo": "widths <= 2", "parsed metadata": "+ 4 axes (COMODO)", "metrics": "+ get_metric(XYZ) on all 35 registries of 2-3 pair/single metrics"},
 }
 OUTSIDE = ["other conceivable seed effects: dict order is insertion order and id()-based ordering does not occur in the xgcm source (source scan, not explored)",
            "set displays/comprehensions cannot be intercepted by name injection: a source scan asserts none exist"]
@@ -82,15 +82,17 @@ def cases(tier):
     out.append(dict(scen="parse", conv="sgrid", axes=["X", "Y", "Z"], vertical=True))
     regs = [["a_xy", "dz", "a_xz", "dy"], ["a_xy", "dz", "a_yz", "dx"], ["a_xz", "dy", "a_yz", "dx"], ["a_xy", "a_xz", "a_yz", "dx", "dy", "dz"],
             ["dx", "dy", "dz"], ["a_xy", "dz", "dx", "dy"], ["a_xy", "a_xz", "dy", "dz", "dxg"], ["a_yz", "dx", "dxg", "dy", "dz"]]
-    if tier == "thorough":
-        pool = ["a_xy", "a_xz", "a_yz", "dx", "dy", "dz"]
-        regs = regs + [list(c) for k in range(2, 4) for c in itertools.combinations(pool, k)]
     for r in regs:
         for req in (["X", "Y", "Z"], ["Z", "Y", "X"], ["X", "Y"], ["Y", "Z"]):
             for op in ("get_metric", "integrate"):
                 if op == "integrate" and (len(req) < 3 or len(r) > 4 or req[0] != "X"):
                     continue
                 out.append(dict(scen="metric", registry=r, requests=[req], op=op))
+    if tier == "thorough":
+        pool = ["a_xy", "a_xz", "a_yz", "dx", "dy", "dz"]
+        for r in [list(c) for k in range(2, 4) for c in itertools.combinations(pool, k)]:
+            if r not in regs:
+                out.append(dict(scen="metric", registry=r, requests=[["X", "Y", "Z"]], op="get_metric"))
     return out
 
 
